@@ -36,9 +36,9 @@ class NeuronWorld(World):
         thresh = rest + gap
         reset = rc.choice([rest, rest - 5.0, rest + 0.2 * gap])
         if dt in DYADIC:
-            rk = rc.choice([0, 1, 2, 2.5, 0.3, 7, 3])
+            rk = rc.choice([0, 1, 2, 2.5, 0.3, 7, 3, 2.25, 1.2, 3.75])
         else:
-            rk = rc.choice([0, 1, 2, 2.5, 0.3, 4.6])
+            rk = rc.choice([0, 1, 2, 2.5, 0.3, 4.6, 2.25, 1.2])
         cfg = {"cls": cls, "dt": dt, "rest": rest, "thresh": thresh, "reset": reset, "refrac_k": rk, "refrac_t": rk * dt,
                "tau": rc.choice([2.0, 5.0, 10.0, 20.0, 0.8]), "R": rc.choice([1.0, 0.5, 2.0]),
                "shape": rc.choice([[1], [3], [2, 2], [5]]), "B": rc.choice([1, 1, 2, 3]),
